@@ -32,7 +32,7 @@ pub struct ProgStats {
 
 /// Full run of one program: returns None if skipped (does not parse back).
 pub fn check_full(sh: &mut Shard, which: &str, family: &str, prog: &[Stmt]) -> Option<ProgStats> {
-    let budget = if family == "corpus" || family == "replay" { 50_000_000 } else { BUDGET };
+    let budget = if family == "corpus" || family == "replay" || family == "count-ladder" { 50_000_000 } else { BUDGET };
     let r = differential(sh, "semantics-under-gc", prog, RunOpts { budget: Some(budget), ledger: true, trace: false, render: true })?;
     let steps = verif::steps();
     let gs = verif::gc_stats_take();
@@ -85,4 +85,106 @@ pub fn check_abort_points(sh: &mut Shard, family: &str, prog: &[Stmt], n: u64) {
             break;
         }
     }
+}
+
+/// Allocation-count ladders: N heap objects created without a function return in between (so without a
+/// collection), for N around every power of two: floats, strings and arrays as garbage, as a growing live
+/// structure, and as a wide live array; followed by nothing, by a call (one collection facing N dead or N live
+/// objects), by a run-time error, or with the error in the last iteration.
+pub fn count_ladder_programs(tier: crate::shard::Tier) -> Vec<(usize, Vec<Stmt>)> {
+    use crate::gen::*;
+    use nederlang::verif::Operator;
+    let kmax = if tier == crate::shard::Tier::Quick { 14 } else { 17 };
+    let mut sizes: Vec<usize> = vec![0, 1, 2, 3, 5, 6, 10, 12, 100, 1000, 3000, 5000, 6000, 10_000];
+    for k in 2..=kmax {
+        let n = 1usize << k;
+        sizes.extend([n - 1, n, n + 1]);
+    }
+    sizes.sort();
+    sizes.dedup();
+    let mut out = Vec::new();
+    for n in sizes {
+        let ni = n as i64;
+        let bodies: Vec<(Vec<Stmt>, Vec<Stmt>)> = vec![
+            // (declarations, loop body after the counter increment)
+            (vec![let_("x", flt(0.0))], vec![es(assign(id("x"), infix(id("x"), Operator::Add, flt(1.0))))]),
+            (vec![], vec![es(array(vec![string("abc")]))]),
+            (vec![let_("a", array(vec![]))], vec![es(assign(id("a"), array(vec![id("a"), calln("string", vec![id("i")])])))]),
+            (vec![let_("a", array(vec![flt(0.5)]))], vec![es(assign(index(id("a"), int(0)), infix(index(id("a"), int(0)), Operator::Add, flt(1.0))))]),
+        ];
+        for (decls, body) in bodies {
+            let tails: Vec<Vec<Stmt>> = vec![
+                vec![es(id("i"))],
+                vec![es(func("f", &["p"], vec![es(array(vec![id("p"), flt(2.5)]))])), es(calln("f", vec![id("i")]))],
+                vec![es(infix(int(1), Operator::Add, boolean(true)))],
+            ];
+            for (ti, tail) in tails.iter().enumerate() {
+                let mut lb = vec![es(op_assign("i", Operator::Add, int(1)))];
+                lb.extend(body.iter().cloned());
+                let mut prog = decls.clone();
+                prog.push(let_("i", int(0)));
+                prog.push(es(whil(infix(id("i"), Operator::Lt, int(ni)), lb.clone())));
+                prog.extend(tail.iter().cloned());
+                out.push((n, prog));
+                // the error inside the last iteration
+                if ti == 0 && n > 0 {
+                    let mut lb2 = lb.clone();
+                    lb2.push(es(iff(infix(id("i"), Operator::Eq, int(ni)), vec![es(index(array(vec![int(1)]), int(5)))], None)));
+                    let mut prog2 = decls.clone();
+                    prog2.push(let_("i", int(0)));
+                    prog2.push(es(whil(infix(id("i"), Operator::Lt, int(ni)), lb2)));
+                    prog2.push(es(id("i")));
+                    out.push((n, prog2));
+                }
+            }
+        }
+    }
+    out
+}
+
+/// The ladder under the shadow heap; for C04 also cut short around every power-of-two instruction count.
+pub fn count_ladder(sh: &mut Shard, which: &str) {
+    let tier = sh.cfg.tier;
+    for (n, prog) in count_ladder_programs(tier) {
+        if !sh.mine() {
+            continue;
+        }
+        sh.begin(&|| format!("allocation ladder n={n}: {}", printer::program(&prog)));
+        sh.count("family:count-ladder");
+        crate::refint::set_model_fuel(40_000_000);
+        if let Some(st) = check_full(sh, which, "count-ladder", &prog) {
+            sh.nontrivial(&printer::program(&prog));
+            if which == "C04" {
+                let mut ks: Vec<u64> = Vec::new();
+                let mut p = 1u64;
+                while p <= st.steps {
+                    ks.extend([p.saturating_sub(1), p, p + 1]);
+                    p *= 2;
+                }
+                ks.extend([st.steps.saturating_sub(2), st.steps.saturating_sub(1)]);
+                ks.retain(|k| *k < st.steps);
+                ks.sort();
+                ks.dedup();
+                let text = printer::program(&prog);
+                for k in ks {
+                    let r = run_ast(&prog, RunOpts { budget: Some(k), ledger: true, trace: false, render: false });
+                    sh.count("abort-points");
+                    if !matches!(r.end, ImplEnd::Budget) {
+                        break;
+                    }
+                    let bad = c04_events(&r.heap);
+                    let uaf = c03_events(&r.heap);
+                    if r.leaked > 0 || !bad.is_empty() || !uaf.is_empty() {
+                        sh.violation(
+                            "abort-point",
+                            json!({"family": "count-ladder", "program": text, "abort_after_instructions": k, "events": r.heap, "leaked": r.leaked}),
+                            format!("cut after {k} instructions: {} box(es) left behind, events {:?}", r.leaked, r.heap),
+                        );
+                        break;
+                    }
+                }
+            }
+        }
+    }
+    crate::refint::set_model_fuel(crate::refint::MODEL_FUEL);
 }
